@@ -10,8 +10,9 @@ CONSTANTS
   B = 2  TXMax = 2
   Inline = TRUE  BatchTX = TRUE  Drops = FALSE
   ScrubTxLen = TRUE  ResetRawSA = TRUE  BothOnHandoff = FALSE
+  ClearHdr = TRUE  TruncRelease = TRUE
   ResetSlot = TRUE  Opts <- ONone
 SPECIFICATION Spec
 SYMMETRY SymClients
-INVARIANTS TypeOK SingleOwner ReleaseOnce ReplyIsOwn SilentStaysSilent AtMostOneSend LeaseBound QuiescedIff BurstBound HandoffClean FreeIsScrubbed
+INVARIANTS TypeOK SingleOwner ReleaseOnce ReplyIsOwn SilentStaysSilent AtMostOneSend LeaseBound QuiescedIff BurstBound HandoffClean FreeIsScrubbed NoHeldSlabs ReplyHeaderIsOwn
 CHECK_DEADLOCK FALSE
